@@ -632,7 +632,20 @@ func (w *clWorld) step(mix string) string {
 		if a0.IsZero() && a1.IsZero() {
 			a0 = sdkmath.OneInt()
 		}
-		w.createPosition(r.Intn(len(w.lps)), lo, hi, a0, a1, kind)
+		owner := r.Intn(len(w.lps))
+		if r.Intn(8) == 0 {
+			// the sender offers more than it owns: everything up to the payment goes through (position record,
+			// ticks, accumulators), the bank send fails, and none of it may remain — in the stores or anywhere else
+			a0 = w.ch.Bal(w.lps[owner].Addr, w.d0).MulRaw(2).AddRaw(1)
+			a1 = w.ch.Bal(w.lps[owner].Addr, w.d1).MulRaw(2).AddRaw(1)
+			kind = "overdrawn"
+			if _, res := w.createPosition(owner, lo, hi, a0, a1, kind); !res.OK() {
+				w.c.Count("overdrawn_create_rejected", 1)
+			}
+			w.trackInRange()
+			return "create-overdrawn"
+		}
+		w.createPosition(owner, lo, hi, a0, a1, kind)
 		w.trackInRange()
 		return "create"
 	case opIdx == 2 && len(ps) > 0:
